@@ -11,10 +11,12 @@ PROPERTY = PropertySpec(
                 'reset: a snapshot is taken only when `trace` is truthy, with the documented label and on the documented side of the parent call; the '
                 'parent is called exactly once with the same arguments and its result/exception passes through. With the hook-order clauses of '
                 'BaseModel.solve_t (C02: pre hook once before pass 1, post hook once after the converging pass, passes numbered 1..k) the label '
-                'sequence start, before, 0, 1..k, end follows. trace_t itself (reads values, writes only the Trace) and the final-snapshot clause are '
-                'decided by the bounded twin run on scripted and faulting models.',
-    level_text='proof obligations for the wrappers (all arguments) + bounded twin runs for trace_t / Trace.append; mixed, hence other',
-    level_note='trusted: pyvc, z3; assumed: trace_t writes only the Trace object (bounded), contract of BaseModel.solve_t (C02)',
+                'sequence start, before, 0, 1..k, end follows. trace_t is executed from source for every kind of `trace` argument (one name as a string, list, tuple, True with TRACE_VARIABLES None / list / tuple), '
+                'empty / non-empty stored trace and reset: reads exactly the traced variables at t in order, replaces the stored Trace only when empty or reset, appends once under the given label; '
+                'Trace.__init__ (owns its names), Trace.append (one more column, earlier snapshots unchanged, non-vector values refused) and TracerMixin.__init__ (one separate empty Trace per period) likewise. '
+                'That snapshot j equals the values after pass j is decided by the bounded twin run on scripted and faulting models.',
+    level_text='proof obligations for the wrappers (all arguments) and for trace_t / Trace / TracerMixin.__init__ over enumerated argument shapes + bounded twin runs; mixed, hence other',
+    level_note='trusted: pyvc, z3; assumed: contract of BaseModel.solve_t (C02); np.array / reshape / hstack run for real on concrete shapes in the Trace.append contract',
     technique='contract-based deductive verification of the wrappers (pyvc + z3); bounded twin-run contract',
     design_ref='DESIGN.md section 10 / C17',
 )
